@@ -11,7 +11,7 @@ package main
 // Domain restrictions of the generator (each is a stated scope limit of the model, design.d/PIPE.md):
 //   no patches / images / replicas / replacements / vars / components / configurations / helm / plugins,
 //   generators with literal sources only (all behaviours, generatorOptions), no immutable;
-//   no `kind: List`, no empty documents, no anchors, no comments, no local-config annotation,
+//   no `kind: List`, no empty documents, no anchors, no comments,
 //   no internal.config.kubernetes.io annotations in inputs, no ',' in names (PrevIds panic, C12 finding).
 //
 // Law oracles evaluated on the implementation (the implementation-side counterparts of the PIPE theorems):
@@ -134,6 +134,7 @@ type pipeCase struct {
 	Refs  int               `json:"refs"`
 	Twins bool              `json:"twins"`
 	Merges int              `json:"merges"`
+	Locals int              `json:"locals"`
 }
 
 // ---------------------------------------------------------------- catalogue
@@ -195,6 +196,7 @@ type pipeGen struct {
 	useNs  bool
 	nextID int
 	refs   int
+	locals int
 }
 
 func pipePodSpec(rng *Rng) map[string]interface{} {
@@ -234,6 +236,11 @@ func (g *pipeGen) newObj(kind, av, name, ns string, layer *pipeDir) *pipeObj {
 	}
 	if rng.Chance(15) {
 		md["annotations"].(map[string]interface{})["note"] = rng.Pick(pipeAdvValues)
+	}
+	if rng.Chance(7) {
+		// IgnoreLocal: dropped at the end of the build unless the value is "false"
+		md["annotations"].(map[string]interface{})["config.kubernetes.io/local-config"] = rng.Pick([]string{"true", "true", "false", "yes"})
+		g.locals++
 	}
 	doc := map[string]interface{}{"apiVersion": av, "kind": kind, "metadata": md}
 	app := rng.Pick(pipeNames)
@@ -809,6 +816,7 @@ func pipeGenCase(rng *Rng, rules []krusty.VerifC03Rule) *pipeCase {
 			pc.Last = nil
 		}
 	}
+	pc.Locals = g.locals
 	pc.Root = "/w/" + top.Name
 	pipeRender(pc)
 	return pc
@@ -1185,6 +1193,11 @@ func pipeTracersIn(d *pipeDir, acc map[string]int) {
 func pipeOracles(pc *pipeCase, o pipeOutcome) [][3]string {
 	var out [][3]string
 	if o.Cls == ClsPanic {
+		// known C12 finding (class panic:api/resmap.(*Factory).FromResourceSlice:explicit-may-not-add): an id collision
+		// among the resources IgnoreLocal keeps panics; the model reproduces it (corpus/PIPE/case_hashclash.json)
+		if strings.Contains(o.Msg, "may not add resource with an already registered id") {
+			return nil
+		}
 		return append(out, [3]string{"no_panic", "PIPE/panic", o.Msg})
 	}
 	if o.Cls != ClsOk {
@@ -1209,7 +1222,8 @@ func pipeOracles(pc *pipeCase, o pipeOutcome) [][3]string {
 		}
 	}
 	for id, n := range want {
-		if got[id] != n {
+		// documents marked local-config may be dropped (IgnoreLocal): at most once then, exactly once otherwise
+		if (pc.Locals == 0 && got[id] != n) || got[id] > n {
 			out = append(out, [3]string{"identity_multiset", "PIPE/identity-multiset", fmt.Sprintf("tracer %s: %d inputs, %d outputs", id, n, got[id])})
 			break
 		}
@@ -1307,6 +1321,7 @@ func pipeOne(r *Run, pc *pipeCase, debug bool, corpus bool) {
 	r.Count("outcome", o.Cls)
 	r.Count("refs", fmt.Sprint(pc.Refs))
 	r.Count("twins", fmt.Sprint(pc.Twins))
+	r.Count("local_config_docs", fmt.Sprint(pc.Locals))
 	r.Count("merge_replace_targets", fmt.Sprint(pc.Merges))
 	if pc.Merges > 0 {
 		r.Count("merge_replace_outcome", o.Cls)
